@@ -25,6 +25,8 @@ from ..core import Ctx, Violation, hyp_run, shard_run
 PID = "C07"
 LEVEL = "exploration"
 RULE = ("event words over a 12-letter alphabet (send_anon, send_anon2, send_plain, ready(hops=cfg, IPv8 exit), "
+        "[plus lifecycle events: an anonymised / plain overlay is replaced by a new instance of the same community id and the "
+        "old instance unloaded - all words <= 4 over 8 letters containing one, and in the drawn words] "
         "ready(no IPv8 flag), ready(other length), half_built, closing, removed, attach/detach, toggle, burst101): all words "
         "to depth 5 (quick) / 6 (thorough) exhaustively (the expensive burst letter only in words up to length 3), "
         "Hypothesis-drawn words to length 60. Non-trivial = the word has an "
@@ -38,6 +40,8 @@ ASSUMPTIONS = [
 EXIT_IPV8, EXIT_BT, RELAY = 4, 2, 1
 ALPHABET = ["send_anon", "send_anon2", "send_plain", "ready_ok", "ready_noflag", "ready_otherlen", "half_built",
             "closing", "removed", "attach_toggle", "anon_toggle", "burst"]
+# lifecycle events, used by the Hypothesis-drawn words and by a small exhaustive family of their own
+LIFECYCLE = ["replace_overlay", "unload_plain", "load_second_anon"]
 
 
 class Rig:
@@ -60,6 +64,7 @@ class Rig:
         def mk(name: str, cid: bytes, anonymize: bool):
             cls = type(name, (Community,), {"community_id": cid})
             return self.node.add(cls, anonymize=anonymize)
+        self.make_overlay = mk
         self.A = mk("AnonA", b"A" * 20, True)
         self.A2 = mk("AnonB", b"B" * 20, True)
         self.P = mk("PlainP", b"P" * 20, False)
@@ -109,7 +114,7 @@ class Rig:
         self.tc.circuits[self.cid] = c
 
 
-def run_word(rig: Rig, word: list, case: dict) -> tuple[bool, str]:
+async def run_word(rig: Rig, word: list, case: dict) -> tuple[bool, str]:
     """
     Execute one word on a reset rig; raises Violation. Returns (nontrivial, class).
     """
@@ -244,6 +249,25 @@ def run_word(rig: Rig, word: list, case: dict) -> tuple[bool, str]:
         elif ev == "burst":
             for _ in range(101):
                 do_send(rig.A, step)
+        elif ev == "replace_overlay":
+            # the application restarts the anonymised overlay: a new instance (same community id, same prefix, again
+            # asking for anonymity) is loaded on the shared endpoint, then the old instance is unloaded
+            old_a = rig.A
+            rig.A = rig.make_overlay("AnonA", b"A" * 20, True)
+            await old_a.unload()
+            rig.node.overlays.remove(old_a)
+            state_change_since_send = True
+        elif ev == "unload_plain":
+            old_p = rig.P
+            rig.P = rig.make_overlay("PlainP", b"P" * 20, False)
+            await old_p.unload()
+            rig.node.overlays.remove(old_p)
+        elif ev == "load_second_anon":
+            extra = rig.make_overlay("AnonB", b"B" * 20, True)
+            await rig.A2.unload()
+            rig.node.overlays.remove(rig.A2)
+            rig.A2 = extra
+            requested[rig.A2.get_prefix()] = True
         else:
             raise AssertionError(ev)
     check_raw("end")
@@ -251,7 +275,7 @@ def run_word(rig: Rig, word: list, case: dict) -> tuple[bool, str]:
 
 
 def _enum_shard(ctx: Ctx, shard: int, nshards: int, depth: int) -> None:
-    async def main(loop):
+    with vloop.virtual_time() as loop:
         rig = Rig(loop)
         try:
             n = len(ALPHABET)
@@ -268,30 +292,42 @@ def _enum_shard(ctx: Ctx, shard: int, nshards: int, depth: int) -> None:
                     word = [ALPHABET[i] for i in idxs]
                     case = {"word": word}
                     try:
-                        nt, cls = run_word(rig, word, case)
+                        nt, cls = loop.run_until_complete(run_word(rig, word, case))
                         ctx.case(k | (1 << 61), nt, cls=cls, sample=case)
                     except Violation as v:
                         ctx.violation(v)
+            # lifecycle family: every word of length <= 4 over sends + circuit + lifecycle events that has a lifecycle event
+            small = ["send_anon", "send_anon2", "send_plain", "ready_ok", "closing", *LIFECYCLE]
+            for d in range(2, 5):
+                for idxs in itertools.product(range(len(small)), repeat=d):
+                    k += 1
+                    if k % nshards != shard or not any(i >= 5 for i in idxs) or not any(i < 3 for i in idxs):
+                        continue
+                    word = [small[i] for i in idxs]
+                    case = {"word": word}
+                    try:
+                        nt, cls = loop.run_until_complete(run_word(rig, word, case))
+                        ctx.case(k | (1 << 61), True, cls="lifecycle:" + cls, sample=case)
+                    except Violation as v:
+                        ctx.violation(v)
         finally:
-            await rig.node.unload()
-    vloop.run(main)
+            loop.run_until_complete(rig.node.unload())
     ctx.note("exhaustive_depth", depth)
 
 
 def _random_shard(ctx: Ctx, shard: int, nshards: int, n: int) -> None:
     from hypothesis import strategies as st
-
-    async def main(loop):
+    with vloop.virtual_time() as loop:
         rig = Rig(loop)
         try:
             def body(word):
                 case = {"word": word}
-                nt, cls = run_word(rig, word, case)
+                nt, cls = loop.run_until_complete(run_word(rig, word, case))
                 ctx.case(case, nt, cls=cls)
-            hyp_run(ctx, "words", st.lists(st.sampled_from(ALPHABET + ALPHABET[:3] * 2), min_size=1, max_size=60), body, n)
+            hyp_run(ctx, "words", st.lists(st.sampled_from(ALPHABET + ALPHABET[:3] * 2 + LIFECYCLE), min_size=1,
+                                           max_size=60), body, n)
         finally:
-            await rig.node.unload()
-    vloop.run(main)
+            loop.run_until_complete(rig.node.unload())
 
 
 def run(ctx: Ctx) -> None:
@@ -301,10 +337,9 @@ def run(ctx: Ctx) -> None:
 
 
 def replay(ctx: Ctx, case: dict) -> None:
-    async def main(loop):
+    with vloop.virtual_time() as loop:
         rig = Rig(loop)
         try:
-            run_word(rig, case["word"], case)
+            loop.run_until_complete(run_word(rig, case["word"], case))
         finally:
-            await rig.node.unload()
-    vloop.run(main)
+            loop.run_until_complete(rig.node.unload())
